@@ -205,6 +205,10 @@ SOLVE_CASES = [
     dict(L=[1.0, 2.0, 4.0], step="gd", second="same", direct=True),
     # user-given names that collide (names are labels only)
     dict(L=[1.0, 2.0], step="block", second="new_point", names="same"),
+    # two partitions in one model (same / different number of blocks); points decomposed in the one that is not the last declared
+    dict(L=[1.0, 2.0], step="block", second="new_point", two=2),
+    dict(L=[1.0, 2.0], step="gd", second="same", two=3),
+    dict(L=[1.0, 2.0, 4.0], step="block", second="new_combo", two=3),
 ]
 
 
@@ -220,14 +224,28 @@ def judge_solve(case):
         part = BlockPartition(d)
     else:
         part = p.declare_block_partition(d=d)
-    calls_log = []
-    orig = part.get_block
+    import gc
+    parts = [part]
+    if case.get("two"):
+        parts.append(p.declare_block_partition(d=case["two"]))
+    # per partition: the block lists of every decomposed point.  The log keeps the BLOCKS, never the decomposed point itself:
+    # a temporary such as `x0 - xs` must stay decomposed although nobody else references it
+    logs = [[] for _ in parts]
+    origs = [q.get_block for q in parts]
 
-    def logged(point, k):
-        b = orig(point, k)
-        calls_log.append((point, k, b))
-        return b
-    part.get_block = logged
+    def make_logged(idx):
+        def logged(point, k):
+            b = origs[idx](point, k)
+            blocks = [origs[idx](point, kk) for kk in range(parts[idx].get_nb_blocks())]
+            if not any(all(x is y for x, y in zip(blocks, old)) for old in logs[idx]):
+                logs[idx].append(blocks)
+            return b
+        return logged
+    if len({id(q) for q in parts}) == len(parts):
+        for idx, q in enumerate(parts):
+            q.get_block = make_logged(idx)
+    else:
+        probs.append(("solve:partitions-identified", "two calls of declare_block_partition returned the same partition object"))
     f = p.declare_function(BlockSmoothConvexFunction, partition=part, L=case["L"])
     xs = f.stationary_point()
     x0 = p.set_initial_point()
@@ -245,6 +263,9 @@ def judge_solve(case):
     if case.get("hand"):
         hand = (x0 * xs == 0)
         part.add_constraint(hand)
+    if len(parts) > 1 and not probs:
+        parts[1].get_block(x0, 0)
+        parts[1].get_block(g0, parts[1].get_nb_blocks() - 1)
     values = []
     for rnd in (1, 2):
         if rnd == 2:
@@ -262,19 +283,16 @@ def judge_solve(case):
         values.append(r["value"])
         nP = Point.counter
         nF = Expression.counter
-        pts = []
-        for pt, k, b in calls_log:
-            if not any(pt is q for q in pts):
-                pts.append(pt)
-        decomposed = [[orig(pt, k) for k in range(d)] for pt in pts]
+        gc.collect()
         ref = set()
-        for (bi, bj) in itertools.product(decomposed, repeat=2):
-            for k in range(d):
-                for l in range(d):
-                    if k != l:
-                        fv = norm_eq(R.functional_vec(bi[k] * bj[l], nP, nF))
-                        if fv:
-                            ref.add(fv)
+        for decomposed in logs:
+            for (bi, bj) in itertools.product(decomposed, repeat=2):
+                for k in range(len(bi)):
+                    for l in range(len(bj)):
+                        if k != l:
+                            fv = norm_eq(R.functional_vec(bi[k] * bj[l], nP, nF))
+                            if fv:
+                                ref.add(fv)
         calls = getattr(p.wrapper, "rec_calls", [])
         known = set()
         for cl in calls:
@@ -369,7 +387,7 @@ def meta(tier):
              "generated once / twice / after a hand-added constraint; sum, identity-of-objects, one-block identity, exact "
              "set of relations, and evaluation of every generated relation on the real coordinate projections of integer "
              "vectors for every coordinate partition of R^n, n <= 3; plus %d block-smooth solve scenarios (user never "
-             "decomposes, decomposition of a new point between two solves, hand-added constraint, partition built with the public constructor, colliding point names) observed through "
+             "decomposes, decomposition of a new point between two solves, hand-added constraint, partition built with the public constructor, colliding point names, two partitions in one model, decomposed temporaries nobody references) observed through "
              "recording wrappers. non-trivial = d > 1." % (_depth(tier), _depth(tier) - 1, len(SOLVE_CASES)),
         bounds=dict(depth=_depth(tier), d=[1, 2, 3], n_max=3),
         exhaustive=True,
